@@ -118,8 +118,18 @@ Definition advance_clock (maxc : Z) (s : state) : result state :=
   let s' := set_clk s (clk s + 1) in
   if maxc <? clk s' then Err (CycleLimit maxc) s' else Ok s'.
 
-Definition step (maxc : Z) (o : op) (s : state) : result state :=
-  bind (exec_op o s) (advance_clock maxc).
+(* one trace row: the row is labelled [lab] (a control operation for decoder rows) while the stack
+   executes [o] (NOOP or DROP for control rows, the operation itself otherwise) *)
+Definition cstep (maxc : Z) (lab o : op) (s : state) : result state :=
+  bind (exec_op o s) (fun s1 => advance_clock maxc (log_op lab s1)).
+
+Definition step (maxc : Z) (o : op) (s : state) : result state := cstep maxc o o s.
+
+Fixpoint csteps (maxc : Z) (ops : list (op * op)) (s : state) : result state :=
+  match ops with
+  | [] => Ok s
+  | (lab, o) :: rest => bind (cstep maxc lab o s) (csteps maxc rest)
+  end.
 
 Fixpoint steps (maxc : Z) (ops : list op) (s : state) : result state :=
   match ops with
